@@ -51,7 +51,7 @@ if not hasattr(D, "async_execute"):
 def load_factor():
     """deadlines stretch with the machine's load (a worker thread that is not even scheduled within 2 s is no finding)"""
     try:
-        return min(8.0, max(1.0, 1.5 * os.getloadavg()[0] / (os.cpu_count() or 1)))
+        return min(5.0, max(1.0, 1.5 * os.getloadavg()[0] / (os.cpu_count() or 1)))
     except (OSError, AttributeError):
         return 1.0
 
